@@ -2,6 +2,8 @@ package props
 
 import (
 	"fmt"
+	"os"
+	"time"
 	"testing"
 
 	"pgregory.net/rapid"
@@ -51,8 +53,13 @@ func progCheck(t *testing.T, cfg progCheckCfg) {
 		noOpt := rapid.Bool().Draw(rt, "noopt")
 		mode := rapid.SampledFrom([]string{"map", "struct", "ptr"}).Draw(rt, "objmode")
 		c, m := caseFromProg(cfg.prop, cfg.part, pr, noOpt, mode)
+		t0 := time.Now()
 		if e := runCase(c); e != nil {
 			violation(rt, cfg.prop, c, "%v", e)
+		}
+		if d := time.Since(t0); d > 2*time.Second {
+			col.Class("slow-case(>2s)")
+			fmt.Fprintf(os.Stderr, "SLOW CASE %v (%s):\n%s\n", d, c.Exp.Why, c.Script)
 		}
 		switch {
 		case c.Exp.Unspec:
